@@ -134,6 +134,8 @@ REWRITES = {
         "`s.chars()` followed by skip / take / count / collect: own iterator type VChars over the string's characters (vstd has no specification for the Skip/Take adapters or collect::<String>)"),
     "with_capacity": (r"\b(Vec|IndexMap)::with_capacity\(", r"vcap::\1_with_capacity(",
         "`with_capacity(n)` goes to a stand-in that is the same constructor plus the precondition `n` is no larger than a collection that already exists (an N argument must not drive an allocation)"),
+    "closure4_typed": (r"\|_, (\w+), _, (\w+)\|", r"|_k1: &String, \1: &JsonValue, _k2: &String, \2: &JsonValue|",
+        "IndexMap::sort_by comparator closure: parameter patterns `_` are unnamed (unused) parameters; the parameter types are the ones of IndexMap<String, JsonValue>::sort_by"),
     "str_to_string": (r"\b(s|str|word|text)\.to_string\(\)", r"vstr::to_string_of(\1)", "&str::to_string() is a String with the same text"),
     "pub_crate": (r"\bpub\(crate\)\s+", r"pub ", "visibility is irrelevant in a single file"),
     "deref_clone": (
